@@ -218,7 +218,7 @@ def run(chk):
                 "metadata file, collections; duplicates added. Judged three ways: by construction against GET of the "
                 "canonical URL, each href re-asked alone (independence), and by the Lean model + monitor on the same "
                 "lines; both front ends, prefixes /, /dav/, /a/b/")
-    chk.lean_obligations(MODULE, AUDIT, regen=lambda c: transval.regen(c, ["Href"]))
+    chk.lean_obligations(MODULE, AUDIT, regen=lambda c: transval.regen(c, ["Href", "Multiget"]))
     quick = chk.tier == "quick"
     run_histories(chk, 6 if quick else 80, 30 if quick else 50)
     bare_collection(chk)
